@@ -296,6 +296,22 @@ def reusable(T):
     for mg in (False, True):
         out.append(("open_range", {"merge_ranges": mg}, (lambda mg: lambda: O(merge_ranges=mg))(mg),
                     (lambda mg: lambda: O(merge_ranges=mg))(mg)))
+    # instances built with OTHER settings and re-configured through their public attributes before use
+    def reconf_r(cl):
+        x = R(T.OrOperation if cl is not T.OrOperation else T.AndOperation, add_head="")
+        x.resolve_to, x.add_head = cl, " "
+        return x
+
+    def reconf_o(mg):
+        x = O(merge_ranges=not mg, add_head="")
+        x.merge_ranges, x.add_head = mg, " "
+        return x
+    for nm, cl in (("none", None), ("and", T.AndOperation), ("or", T.OrOperation), ("bool", T.BoolOperation)):
+        out.append(("resolve (re-configured after construction)", {"resolve_to": nm},
+                    (lambda cl: lambda: reconf_r(cl))(cl), (lambda cl: lambda: R(cl))(cl)))
+    for mg in (False, True):
+        out.append(("open_range (re-configured after construction)", {"merge_ranges": mg},
+                    (lambda mg: lambda: reconf_o(mg))(mg), (lambda mg: lambda: O(merge_ranges=mg))(mg)))
     out.append(("auto_head_tail (module-level singleton)", {}, lambda: AHT.auto_head_tail, lambda: AHT.AutoHeadTail()))
     out.append(("copy", {}, lambda: TreeTransformer().visit, lambda: TreeTransformer().visit))
     return out
